@@ -7,7 +7,7 @@ from engine import slicer
 from engine.core import Job, VERIF, extract_inputs
 from engine.routeb import gotocc_cpp, cbmc_argv, STD
 from engine.selftest import subst
-from props import planjobs
+from props import planjobs, builderjobs
 
 ID = "C06"
 USES_CPP = True   # adds the front-end assumption canaries (engine/frontend.py) to every run of this check
@@ -291,6 +291,8 @@ def jobs(tier, mutant=None):
     # Plan side (modular, props/planunit.py): the pool operations are called in the right order, each command is scheduled at most once,
     # slots/tokens are given back on success and failure, a startable wanted edge is scheduled at once
     js += planjobs.select(tier, ["M1", "M3", "M4", "M8"], r'\bC06\b', mutant)
+    # Build loop (modular, props/builderunit.py): job slots / jobserver tokens are given back on every return path; ninja only waits while a command runs
+    js += builderjobs.select(tier, ["B3"], r'\bC06\b', mutant)
     return js
 
 
